@@ -263,31 +263,42 @@ def codes_for(dm):
 
 
 def _ip_job(job):
+    """One process asks the same distance codes of several lanes (table year, gender, age), the lanes taking turns in a
+    rotating order: an answer must not depend on which other year / gender / age was asked just before."""
     common.use_repo()
     import athlib
     from athlib.utils import get_distance
-    tbl, g, age, dists, rowcodes = job
-    yr = int(tbl)
-    rows = []
-    for code, dmm in rowcodes:
-        rows.append([dmm, L(call(athlib.wma_age_factor, g, age, code, year=yr)), L(call(athlib.wma_world_best, g, code, year=yr))])
-    queries, codes, n = [], [], 0
-    tabd = dict(rowcodes)
-    seams = []
-    for code, dmm in rowcodes:
-        gd = call(get_distance, code)
-        if isinstance(gd, int) and gd * 1000 != dmm:
-            seams.append([min(gd * 1000, dmm), max(gd * 1000, dmm)])
-    for dm, code in dists:
-        # the distance of a query is the one its spelling states (dm metres), never what get_distance made of it:
-        # a misread spelling then shows as a factor / best outside its neighbours, and a spelling that cannot be
-        # measured as a raised query
-        queries.append([tabd[code] if code in tabd else dm * 1000, L(call(athlib.wma_age_factor, g, age, code, year=yr)), L(call(athlib.wma_world_best, g, code, year=yr))])
-        codes.append(code)
-        n += 2
-    order = sorted(range(len(queries)), key=lambda i: queries[i][0])
-    return {'k': 'ip', 'tbl': tbl, 'g': g, 'age2': int(age * 2), 'rows': rows, 'queries': [queries[i] for i in order],
-            'codes': [codes[i] for i in order], 'seams': seams, 'n': n}
+    lanes, dists = job
+    L_ = []
+    for tbl, g, age, rowcodes in lanes:
+        yr = int(tbl)
+        rows = []
+        for code, dmm in rowcodes:
+            rows.append([dmm, L(call(athlib.wma_age_factor, g, age, code, year=yr)), L(call(athlib.wma_world_best, g, code, year=yr))])
+        seams = []
+        for code, dmm in rowcodes:
+            gd = call(get_distance, code)
+            if isinstance(gd, int) and gd * 1000 != dmm:
+                seams.append([min(gd * 1000, dmm), max(gd * 1000, dmm)])
+        L_.append({'tbl': tbl, 'g': g, 'age': age, 'yr': yr, 'rows': rows, 'seams': seams, 'tabd': dict(rowcodes), 'queries': [], 'codes': []})
+    nl = len(L_)
+    for idx, (dm, code) in enumerate(dists):
+        for r in range(nl):
+            ln = L_[(idx + r) % nl]
+            # the distance of a query is the one its spelling states (dm metres), never what get_distance made of it:
+            # a misread spelling then shows as a factor / best outside its neighbours, and a spelling that cannot be
+            # measured as a raised query
+            ln['queries'].append([ln['tabd'][code] if code in ln['tabd'] else dm * 1000,
+                                  L(call(athlib.wma_age_factor, ln['g'], ln['age'], code, year=ln['yr'])),
+                                  L(call(athlib.wma_world_best, ln['g'], code, year=ln['yr']))])
+            ln['codes'].append(code)
+    out = []
+    for ln in L_:
+        order = sorted(range(len(ln['queries'])), key=lambda i: ln['queries'][i][0])
+        out.append({'k': 'ip', 'tbl': ln['tbl'], 'g': ln['g'], 'age2': int(ln['age'] * 2), 'rows': ln['rows'],
+                    'queries': [ln['queries'][i] for i in order], 'codes': [ln['codes'][i] for i in order],
+                    'seams': ln['seams'], 'n': 2 * len(order)})
+    return out
 
 
 def run15(tier):
@@ -295,7 +306,8 @@ def run15(tier):
     quick = tier == 'quick'
     rng = random.Random(common.seed() * 3 + 15)
     T = tables()
-    jobs = []
+    ages = [35, 50, 72.5, 90] if quick else [20, 35, 42.5, 50, 65, 80.5, 95, 105]
+    lanes, ds = [], set()
     for tbl in ('2015', '2023'):
         d = T[tbl]
         for g in 'mf':
@@ -304,32 +316,30 @@ def run15(tier):
             run_rows = table[i0:]
             rowcodes = [(r[0], int(round(r[1] * 1000000))) for r in run_rows]
             tab = sorted({int(round(r[1] * 1000)) for r in run_rows})
-            ds = set()
-            stride = 37 if quick else 1
-            ds.update(range(20, 400001, stride if quick else 7))
-            if not quick:
-                ds.update(range(20, 60001))
             for t in tab + [20, 400000]:
                 ds.update(range(max(20, t - 3), min(400000, t + 3) + 1))
-            ds = sorted(ds)
-            dists = []
-            for dm in ds:
-                for code in codes_for(dm):
-                    dists.append((dm, code))
-            # miles spellings
-            # (athlib counts a mile as 1609 m: the stated distance of q miles is floor(1609 q) metres)
-            for k in range(1, 250):
-                dists.append((1609 * k, '%dM' % k))
-                if k < 40:
-                    dists.append(((1609 * (100 * k + 50)) // 100, '%d.5M' % k))
-                    dists.append(((1609 * (100 * k + 25)) // 100, '%d.25M' % k))
-            ages = [35, 50, 72.5, 90] if quick else [20, 35, 42.5, 50, 65, 80.5, 95, 105]
             for age in ages:
-                for i in range(0, len(dists), 6000):
-                    jobs.append((tbl, g, age, dists[i:i + 6000], rowcodes))
+                lanes.append((tbl, g, age, rowcodes))
+    ds.update(range(20, 400001, 37 if quick else 7))
+    if not quick:
+        ds.update(range(20, 60001))
+    dists = []
+    for dm in sorted(ds):
+        for code in codes_for(dm):
+            dists.append((dm, code))
+    # miles spellings (athlib counts a mile as 1609 m: the stated distance of q miles is floor(1609 q) metres)
+    for k in range(1, 250):
+        dists.append((1609 * k, '%dM' % k))
+        if k < 40:
+            dists.append(((1609 * (100 * k + 50)) // 100, '%d.5M' % k))
+            dists.append(((1609 * (100 * k + 25)) // 100, '%d.25M' % k))
+    # every process serves all lanes (both table years, both genders, all ages) for its share of the distances
+    chunk = max(200, -(-len(dists) // (common.NCPU * (2 if quick else 16))))
+    jobs = [(lanes, dists[i:i + chunk]) for i in range(0, len(dists), chunk)]
     with Pool(common.NCPU) as pool:
-        recs = pool.map(_ip_job, jobs, chunksize=1)
+        recs = [x for part in pool.map(_ip_job, jobs, chunksize=1) for x in part]
     rep.setcov('queries', sum(len(x['queries']) for x in recs))
+    rep.setcov('lanes_per_process', len(lanes))
     return judge(rep, recs, C15_CLAUSES)
 
 
